@@ -1,8 +1,10 @@
 package extract
 
 import (
+	"bytes"
 	"fmt"
 	"go/ast"
+	"go/printer"
 	"go/token"
 	"os"
 	"path/filepath"
@@ -483,6 +485,143 @@ func genC17(repo string) (string, error) {
 	walkTR(bf.Body.List, "")
 	fmt.Fprintf(&sb, "\n/-- queryStmtParser.build: (assigned, enclosing conditions, value) for `now` and query.TimeRange -/\ndef buildTimeRange : List (String × String × String) := [%s]\n", strings.Join(trs, ",\n  "))
 
+	// ---- isCompleteExpr: the case list, and what validation() applies it to
+	ic := FindFunc(qp, "", "isCompleteExpr")
+	if ic == nil {
+		return "", fmt.Errorf("isCompleteExpr not found in sql/query_stmt_parser.go")
+	}
+	var ccs []string
+	ast.Inspect(ic.Body, func(n ast.Node) bool {
+		ts, ok := n.(*ast.TypeSwitchStmt)
+		if !ok {
+			return true
+		}
+		for _, c := range ts.Body.List {
+			cc := c.(*ast.CaseClause)
+			var body []string
+			for _, st := range cc.Body {
+				body = append(body, c17NodeText(st))
+			}
+			label := "default"
+			if len(cc.List) > 0 {
+				var ls []string
+				for _, l := range cc.List {
+					ls = append(ls, exprText(l))
+				}
+				label = strings.Join(ls, ",")
+			}
+			ccs = append(ccs, fmt.Sprintf("(%s, %s)", c17LeanStr(label), c17LeanStr(strings.Join(body, "; "))))
+		}
+		return false
+	})
+	fmt.Fprintf(&sb, "\n/-- isCompleteExpr: (case, body) -/\ndef completeCases : List (String × String) := [%s]\n", strings.Join(ccs, ",\n  "))
+	vfn := FindFunc(qp, "queryStmtParser", "validation")
+	if vfn == nil {
+		return "", fmt.Errorf("queryStmtParser.validation not found")
+	}
+	var vcs []string
+	var walkV func(n ast.Node, ctxt string)
+	walkV = func(n ast.Node, ctxt string) {
+		ast.Inspect(n, func(m ast.Node) bool {
+			switch x := m.(type) {
+			case *ast.RangeStmt:
+				walkV(x.Body, "range "+exprText(x.X))
+				return false
+			case *ast.CallExpr:
+				if id, ok := x.Fun.(*ast.Ident); ok && id.Name == "isCompleteExpr" && len(x.Args) == 1 {
+					vcs = append(vcs, fmt.Sprintf("(%s, %s)", c17LeanStr(ctxt), c17LeanStr(exprText(x.Args[0]))))
+				}
+			}
+			return true
+		})
+	}
+	walkV(vfn.Body, "")
+	fmt.Fprintf(&sb, "/-- validation(): (enclosing range, argument) of every isCompleteExpr call -/\ndef validationChecks : List (String × String) := [%s]\n", strings.Join(vcs, ", "))
+
+	// ---- visitExprAtom: the number literal comes from ParseFloat and its error is not dropped
+	va := FindFunc(qp, "queryStmtParser", "visitExprAtom")
+	if va == nil {
+		return "", fmt.Errorf("visitExprAtom not found")
+	}
+	var pfs []string
+	ast.Inspect(va.Body, func(n ast.Node) bool {
+		switch x := n.(type) {
+		case *ast.AssignStmt:
+			if t := c17NodeText(x); strings.Contains(t, "ParseFloat") {
+				pfs = append(pfs, t)
+			}
+		case *ast.IfStmt:
+			if t := exprText(x.Cond); t == "err != nil" {
+				pfs = append(pfs, c17NodeText(x))
+			}
+		}
+		return true
+	})
+	fmt.Fprintf(&sb, "/-- visitExprAtom: the ParseFloat call and the guard on its error -/\ndef parseFloatGuard : List String := %s\n", LeanStrList(pfs))
+
+	// ---- every stmt.<Expr kind> literal the listener builds: (function, kind, fields set at construction)
+	var cons []string
+	for _, rel := range []string{"sql/query_stmt_parser.go", "sql/base_stmt_parser.go", "sql/metric_metadata_stmt_parser.go"} {
+		_, f, err := ParseFile(repo, rel)
+		if err != nil {
+			return "", err
+		}
+		for _, d := range f.Decls {
+			fd, ok := d.(*ast.FuncDecl)
+			if !ok || fd.Body == nil {
+				continue
+			}
+			ast.Inspect(fd.Body, func(n ast.Node) bool {
+				cl, ok := n.(*ast.CompositeLit)
+				if !ok {
+					return true
+				}
+				se, ok := cl.Type.(*ast.SelectorExpr)
+				if !ok || exprText(se.X) != "stmt" || !strings.HasSuffix(se.Sel.Name, "Expr") && se.Sel.Name != "SelectItem" && se.Sel.Name != "NumberLiteral" {
+					return true
+				}
+				var keys []string
+				for _, e := range cl.Elts {
+					if kv, ok := e.(*ast.KeyValueExpr); ok {
+						keys = append(keys, exprText(kv.Key))
+					} else {
+						keys = append(keys, "<positional>")
+					}
+				}
+				cons = append(cons, fmt.Sprintf("(%s, %s, %s)", c17LeanStr(fd.Name.Name), c17LeanStr(se.Sel.Name), LeanStrList(keys)))
+				return true
+			})
+		}
+	}
+	// ---- where the listener links nodes together / stores the clauses of the statement
+	var asg []string
+	linkSel := map[string]bool{"Expr": true, "Left": true, "Right": true, "Params": true, "condition": true,
+		"havingStmt": true, "selectItems": true, "orderBy": true}
+	for _, rel := range []string{"sql/query_stmt_parser.go", "sql/base_stmt_parser.go", "sql/metric_metadata_stmt_parser.go"} {
+		_, f, err := ParseFile(repo, rel)
+		if err != nil {
+			return "", err
+		}
+		for _, d := range f.Decls {
+			fd, ok := d.(*ast.FuncDecl)
+			if !ok || fd.Body == nil {
+				continue
+			}
+			ast.Inspect(fd.Body, func(n ast.Node) bool {
+				as, ok := n.(*ast.AssignStmt)
+				if !ok || len(as.Lhs) != 1 || len(as.Rhs) != 1 {
+					return true
+				}
+				if se, ok := as.Lhs[0].(*ast.SelectorExpr); ok && linkSel[se.Sel.Name] {
+					asg = append(asg, fmt.Sprintf("(%s, %s, %s)", c17LeanStr(fd.Name.Name), c17LeanStr(exprText(as.Lhs[0])), c17LeanStr(exprText(as.Rhs[0]))))
+				}
+				return true
+			})
+		}
+	}
+	fmt.Fprintf(&sb, "/-- (function, assigned link or clause, value) -/\ndef listenerLinks : List (String × String × String) := [\n  %s]\n", strings.Join(asg, ",\n  "))
+	fmt.Fprintf(&sb, "/-- every expression node literal in the listener: (function, kind, fields set) -/\ndef listenerConstructs : List (String × String × List String) := [\n  %s]\n", strings.Join(cons, ",\n  "))
+
 	// ---- plan stages: where the payload of a task request comes from, and what the receiving
 	// processors unmarshal
 	var pps, calls []string
@@ -536,6 +675,15 @@ func genC17(repo string) (string, error) {
 	}
 	fmt.Fprintf(&sb, "/-- (processor, arguments of its statement.UnmarshalJSON calls) -/\ndef leafUnmarshals : List (String × List String) := [%s]\n", strings.Join(lus, ", "))
 	return sb.String(), nil
+}
+
+// c17NodeText prints any node on one line.
+func c17NodeText(n ast.Node) string {
+	var b bytes.Buffer
+	if err := printer.Fprint(&b, token.NewFileSet(), n); err != nil {
+		return "<unprintable>"
+	}
+	return strings.Join(strings.Fields(b.String()), " ")
 }
 
 // c17PayloadSource: the value of `Payload:` in the TaskRequest literal of a plan stage; when it is
